@@ -126,6 +126,9 @@ def nas_sscanf(s, keep_string=False):
     try:
         return int(s)
     except ValueError:
+        if s.strip().lstrip("+-").isalpha():
+            # a word ("NAN", "INF", ...) is a string field, not a number
+            return s.strip() if keep_string else None
         try:
             return float(s)
         except ValueError:
